@@ -6,6 +6,12 @@ ENGINES = [
 ]
 NOT_BUILT_REASON = {}
 META = {
+    "C10": {
+        "engine": "vkit (E2)",
+        "technique": "exhaustive single (thorough: pairwise) corruption enumeration of update messages x transport x operation, judged by an independent chain/signature validator",
+        "text": "Base updates with 0..9 events of an 8-revocation history are corrupted in every way of the menu (every event value/index, swaps, delete/duplicate/insert, every byte flip, every truncation length, extension, algorithm code and shorter well-formed digest of every parent hash, every byte of the signed blob, key counter, accumulator substituted by every other validly signed one or another key's), in memory and over JSON/CBOR, and fed to Update.Verify, Witness.Update, Update.Prepend (fresh and deserialised lists) and EventList.Verify; plus every ordered pair of EventList.Verify calls on one list object against all accumulators, and Hash.Equal over all prefixes/extensions/byte changes.",
+        "note": "Trusted: crypto/ecdsa, SHA-256, cbor decoding of the signed tuple in the validator. Triple corruptions are not explored.",
+    },
     "C09": {
         "engine": "vkit (E4)",
         "technique": "explicit-state exploration of update-application histories on fresh real objects, stepped against an abstract (index, revokedAt) model",
